@@ -20,6 +20,8 @@ GENERATORS = [
     ("GenFactsSession.v", "tr_facts:generate_session"),
     ("GenIdentity.v", "tr_identity"),
     ("GenPar.v", "tr_par"),
+    ("GenUi.v", "tr_ui"),
+    ("GenMain.v", "tr_main"),
 ]
 
 
